@@ -23,6 +23,7 @@ type c14Sc struct {
 	// offsets (values around powers of two and other round numbers: window / size-class edges)
 	AlignAt  []int `json:"align_at,omitempty"`
 	AlignSeg int   `json:"align_seg,omitempty"`
+	ViaFS    bool  `json:"via_fs,omitempty"` // templates come from a FileSystemLoader on the simulated disk instead of RegisterString
 }
 
 type propC14 struct{}
@@ -73,7 +74,7 @@ func (propC14) Gen(seed uint64, ex map[string]bool) interface{} {
 			t.Segs = append(t.Segs[:at], append([]string{pick(r, extras)}, t.Segs[at:]...)...)
 		}
 	}
-	sc := &c14Sc{Prog: p}
+	sc := &c14Sc{Prog: p, ViaFS: r.P(25)}
 	inf := 1 << 30
 	vec := func(m map[string]int) { sc.Knobs = append(sc.Knobs, m) }
 	vec(map[string]int{}) // shipped
@@ -114,9 +115,30 @@ func (propC14) Gen(seed uint64, ex map[string]bool) interface{} {
 	return sc
 }
 
+var c14ViaFS bool // set per run from the scenario (single task, no concurrency)
+
 func c14Render(p *Program, knobs map[string]int, mainSrc string) (Obs, *simrt.World) {
 	w := simrt.Begin(simrt.Config{Seed: 14, PoolPolicy: simrt.PoolLIFO, MapOrder: simrt.OrderSorted, ClockStart: 1_700_000_000e9, ClockStep: 1e6, Knobs: knobs})
 	defer simrt.End()
+	if c14ViaFS {
+		w.UseSimFS()
+		twig.SetDebugWriter(io.Discard)
+		saved := twig.VerifSwapGlobals(nil)
+		defer twig.VerifSwapGlobals(saved)
+		e := twig.New()
+		installSandbox(e)
+		installGlobals(e)
+		for _, t := range p.Templates {
+			src := t.Src()
+			if t.Name == p.Main && mainSrc != "" {
+				src = mainSrc
+			}
+			w.FSWrite("tpl/"+t.Name+".twig", []byte(src), w.NowNS())
+		}
+		e.RegisterLoader(twig.NewFileSystemLoader([]string{"tpl"}))
+		observe(nil, func() (string, error) { return e.Render(p.Main, BuildCtx(p.Ctx, 0)) })
+		return observe(nil, func() (string, error) { return e.Render(p.Main, BuildCtx(p.Ctx, 0)) }), w
+	}
 	twig.SetDebugWriter(io.Discard)
 	saved := twig.VerifSwapGlobals(nil)
 	defer twig.VerifSwapGlobals(saved)
@@ -179,6 +201,8 @@ func c14RenderTo(p *Program, flavour string) (Obs, *simrt.World) {
 
 func (propC14) Run(scI interface{}) *Outcome {
 	sc := scI.(*c14Sc)
+	c14ViaFS = sc.ViaFS
+	defer func() { c14ViaFS = false }()
 	o := &Outcome{Probes: map[string]int64{}}
 	fp := uint64(0xcbf29ce484222325)
 	var base Obs
